@@ -115,6 +115,17 @@ Proof. exact (zt_delay K x X d). Qed.
 (* repeated poles of the inverse transform: z/(z-p)^(m+1) o--o C(n,m) p^(n-m) *)
 Theorem C13_zt_binom (p : K) (m : nat) : is_ztl (gbin p m) (pshift m, ppow [1; - p] (S m)).
 Proof. exact (zt_binom K p m). Qed.
+(* what InverseZTransformer.ratfun evaluates for a pole of order m+1 (real poles and each
+   member of a conjugate pair): falling factorial / m! = binomial coefficient *)
+Theorem C13_ffact_binom (n m : nat) : ffact n m = (fact m * binom n m)%nat.
+Proof. exact (ffact_binom n m). Qed.
+Theorem C13_prefac_binom (p : K) (n m : nat) : p <> 0 ->
+  ofnat (ffact n m) * zpw p (- Z.of_nat m) / ofnat (fact m) * pw p n = gbin p m n.
+Proof. exact (prefac_binom K p n m). Qed.
+Theorem C13_zt_pair_binom (r1 r2 p1 p2 : K) (m : nat) :
+  is_ztl (fun n => r1 * gbin p1 m n + r2 * gbin p2 m n)
+         (pq_add (pscal r1 (pshift m), ppow [1; - p1] (S m)) (pscal r2 (pshift m), ppow [1; - p2] (S m))).
+Proof. exact (zt_pair_binom K r1 r2 p1 p2 m). Qed.
 End C13.
 
 (* ---- non-vacuity: primitive roots exist in the executable instances ------ *)
@@ -156,4 +167,7 @@ Print Assumptions C13_zt_add_sound.
 Print Assumptions C13_zt_literal.
 Print Assumptions C13_zt_delay.
 Print Assumptions C13_zt_binom.
+Print Assumptions C13_ffact_binom.
+Print Assumptions C13_prefac_binom.
+Print Assumptions C13_zt_pair_binom.
 Print Assumptions idft_dft_Qi.
